@@ -892,3 +892,111 @@ Example coercion_nonvacuous :
 Proof. repeat split; vm_compute; reflexivity. Qed.
 
 End Examples.
+
+(* ================================================================ UPDATE: the affected-row count *)
+Definition changedb (t' : tbl) (kr : key * row) : bool :=
+  negb (match lookup (fst kr) t' with Some r' => row_eqb r' (snd kr) | None => false end).
+
+(* the SET list does not move rows to another key (e.g. it assigns no
+   primary-key column; the AT executors refuse such updates anyway) *)
+Definition keeps_key (sch : schema) (sets : list (bytes * expr)) : Prop :=
+  forall en old vals, e_cols en = s_cols sch ->
+    apply_sets en sets old = Ok vals -> key_of sch vals = key_of sch old.
+
+(* every row is filed under its own primary key *)
+Definition keyed (sch : schema) (t : tbl) : Prop := forall k r, In (k, r) t -> k = key_of sch r.
+
+Lemma upd_fold sch en sets : e_cols en = s_cols sch -> keeps_key sch sets -> forall sel s s',
+  wfold (update_row sch en sets 1) sel s = WOk s' ->
+  NoDup (keys sel) ->
+  (forall k old, In (k, old) sel -> lookup k (w_t s) = Some old /\ k = key_of sch old) ->
+  (forall k, ~ In k (keys sel) -> lookup k (w_t s') = lookup k (w_t s)) /\
+  w_aff s' = w_aff s + Z.of_nat (length (filter (changedb (w_t s')) sel)).
+Proof.
+  intros EC KK. induction sel as [|[k0 old] rest IH]; cbn [wfold]; intros s s' H ND Hsel.
+  - inversion H; subst. cbn. split; auto. lia.
+  - destruct (update_row sch en sets 1 s (k0, old)) as [s1|] eqn:E; [|discriminate].
+    cbn in ND. inversion ND as [|? ? N0 ND']; subst.
+    destruct (Hsel k0 old (or_introl eq_refl)) as [L0 K0].
+    assert (Step : (w_t s1 = w_t s /\ w_aff s1 = w_aff s /\ lookup k0 (w_t s1) = Some old) \/
+                   (exists vals, row_eqb vals old = false /\ w_aff s1 = w_aff s + 1 /\
+                       forall k, lookup k (w_t s1) = if key_eqb k k0 then Some vals else lookup k (w_t s))).
+    { unfold update_row in E. destruct (apply_sets en sets old) as [vals|] eqn:AS; [|discriminate].
+      destruct (row_eqb vals old) eqn:RE.
+      - inversion E; subst. left. auto.
+      - rewrite (KK _ _ _ EC AS), <- K0, key_eqb_refl in E. cbn [negb andb] in E.
+        injection E as E1. rewrite <- E1. cbn.
+        right. exists vals. repeat split; auto. intro k.
+        rewrite lookup_put by apply lookup_remove_eq.
+        keq k k0; auto. apply lookup_remove_neq; congruence. }
+    assert (Hrest : forall k o, In (k, o) rest -> lookup k (w_t s1) = Some o /\ k = key_of sch o).
+    { intros k o I. destruct (Hsel k o (or_intror I)) as [L K]. split; auto.
+      assert (k <> k0). { intro EQ. apply N0. rewrite <- EQ. apply in_map_iff. exists (k, o). auto. }
+      destruct Step as [[T _]|[vals [_ [_ T]]]].
+      - now rewrite T.
+      - rewrite T. keq k k0; congruence. }
+    destruct (IH s1 s' H ND' Hrest) as [I1 I2]. split.
+    + intros k NI. rewrite I1 by (intro; apply NI; now right).
+      assert (k <> k0) by (intro EQ; apply NI; cbn; left; congruence).
+      destruct Step as [[T _]|[vals [_ [_ T]]]]; [now rewrite T|].
+      rewrite T. keq k k0; congruence.
+    + cbn [filter]. unfold changedb at 1. cbn [fst snd]. rewrite (I1 k0 N0).
+      destruct Step as [[T [A L]]|[vals [RE [A T]]]].
+      * rewrite L, row_eqb_refl. cbn [negb]. lia.
+      * rewrite T, key_eqb_refl, RE. cbn [negb length]. lia.
+Qed.
+
+(* the affected-row count of an UPDATE is the number of rows whose content
+   actually changed (an assignment of the value a row already has does not count) *)
+Theorem update_count sch st sets w o lim args n l :
+  tbl_wf (ts_rows st) -> keyed sch (ts_rows st) -> keeps_key sch sets ->
+  r_out (exec sch st (SUpdate sets w o lim) args) = OkMod n l ->
+  n = Z.of_nat (length (filter (changedb (ts_rows (r_state (exec sch st (SUpdate sets w o lim) args))))
+                               (ts_rows st))).
+Proof.
+  intros W KD KK. cbn. unfold exec_update. destruct (negb _); cbn; [discriminate|].
+  destruct (select_rows (mk_env sch args) w o lim (ts_rows st)) as [sel|] eqn:S; cbn; [|discriminate].
+  destruct (select_rows_sound _ _ _ _ _ _ S) as [A B]. specialize (B W).
+  match goal with |- context [wfold ?f ?l ?s0] => destruct (wfold f l s0) as [s1|] eqn:F end; cbn;
+    [|discriminate].
+  intro H; inversion H; subst. clear H.
+  apply (upd_fold sch (mk_env sch args) sets eq_refl KK) in F; [|exact B|].
+  2:{ intros k old I. destruct (A _ I) as [It _]. cbn. split; [now apply In_lookup | now apply KD]. }
+  cbn in F. destruct F as [I1 I2]. rewrite I2. f_equal. cbn.
+  apply Permutation_length, NoDup_Permutation.
+  - apply NoDup_filter, wf_NoDup, B.
+  - apply NoDup_filter, wf_NoDup, W.
+  - intros [k r]. rewrite !filter_In. split.
+    + intros [I P]. split; auto. apply A, I.
+    + intros [I P]. split; auto.
+      destruct (in_dec key_eq_dec k (keys sel)) as [Ik|NI].
+      * apply in_map_iff in Ik. destruct Ik as [[k1 r1] [E1 I1']]. cbn in E1. subst k1.
+        pose proof (In_lookup _ _ _ W (proj1 (A _ I1'))) as L1.
+        rewrite (In_lookup _ _ _ W I) in L1. inversion L1; subst. exact I1'.
+      * exfalso. unfold changedb in P. cbn [fst snd] in P.
+        rewrite (I1 k NI), (In_lookup _ _ _ W I), row_eqb_refl in P. discriminate.
+Qed.
+
+(* assigning only columns outside the primary key keeps the key *)
+Lemma nth_set_nth_neq {A} (i j : nat) (v d : A) l : i <> j -> nth j (set_nth i v l) d = nth j l d.
+Proof.
+  revert i j; induction l as [|x l IH]; intros [|i] [|j] H; cbn; auto; try congruence.
+Qed.
+
+Theorem non_key_assignments_keep_key sch sets :
+  (forall c e i col, In (c, e) sets -> find_col c (s_cols sch) = Some (i, col) -> ~ In i (s_pk sch)) ->
+  keeps_key sch sets.
+Proof.
+  intros H en old vals EC. revert old vals.
+  induction sets as [|[c e] sets IH]; cbn [apply_sets]; intros old vals A.
+  - now inversion A.
+  - rewrite EC in A.
+    destruct (find_col c (s_cols sch)) as [[i col]|] eqn:F; [|discriminate].
+    destruct (match e with EDefault => default_of col | _ => eval (with_row en old) e end) as [v|];
+      cbn [bind] in A; [|discriminate].
+    destruct (store col v) as [v'|]; cbn [bind] in A; [|discriminate].
+    rewrite (IH (fun c0 e0 i0 col0 I => H c0 e0 i0 col0 (or_intror I)) _ _ A).
+    unfold key_of. apply map_ext_in. intros j Ij.
+    apply nth_set_nth_neq. intro; subst j.
+    exact (H c e i col (or_introl eq_refl) F Ij).
+Qed.
